@@ -754,16 +754,25 @@ func (v Value) toReflectValue(typ reflect.Type) (reflect.Value, error) {
 	switch kind {
 	case reflect.Float32, reflect.Float64, reflect.Interface:
 	default:
+		// A number with a fractional part (of either sign) has no exact value in a
+		// non-float kind, and NaN has no value in an integer kind.
+		var number float64
+		isFloat := false
 		switch value := v.value.(type) {
 		case float32:
-			_, frac := math.Modf(float64(value))
-			if frac > 0 {
-				return reflect.Value{}, fmt.Errorf("RangeError: %v to reflect.Kind: %v", value, kind)
-			}
+			number, isFloat = float64(value), true
 		case float64:
-			_, frac := math.Modf(value)
-			if frac > 0 {
-				return reflect.Value{}, fmt.Errorf("RangeError: %v to reflect.Kind: %v", value, kind)
+			number, isFloat = value, true
+		}
+		if isFloat {
+			if math.IsNaN(number) {
+				switch kind {
+				case reflect.Int, reflect.Int8, reflect.Int16, reflect.Int32, reflect.Int64,
+					reflect.Uint, reflect.Uint8, reflect.Uint16, reflect.Uint32, reflect.Uint64:
+					return reflect.Value{}, fmt.Errorf("RangeError: %v to reflect.Kind: %v", number, kind)
+				}
+			} else if _, frac := math.Modf(number); frac != 0 {
+				return reflect.Value{}, fmt.Errorf("RangeError: %v to reflect.Kind: %v", number, kind)
 			}
 		}
 	}
